@@ -21,7 +21,10 @@ import (
 	"testing"
 	"time"
 
+	"log/slog"
+
 	"github.com/goblimey/go-ntrip/jsonconfig"
+	rtcm "github.com/goblimey/go-ntrip/rtcm/handler"
 )
 
 type vCase struct {
@@ -141,6 +144,35 @@ func runHandle(in []byte, w io.Writer, cfg *jsonconfig.Config, c vCase) chan str
 	return done
 }
 
+// expectedOutput computes, independently of the application's HandleMessages, what the complete output must be:
+// the real stream handler run sequentially gives the messages; rtcmfilter writes the raw bytes of the typed ones,
+// displayrtcm3 writes its three heading lines and the display of every message.
+func expectedOutput(app string, in []byte) []byte {
+	chIn := make(chan byte, len(in)+1)
+	for _, b := range in {
+		chIn <- b
+	}
+	close(chIn)
+	chOut := make(chan rtcm.Message, 16)
+	h := rtcm.New(verifStart, slog.LevelDebug)
+	go h.HandleMessages(chIn, chOut)
+	var out []byte
+	if app == "displayrtcm3" {
+		out = append(out, "RTCM data\n"...)
+		out = append(out, "\nNote: times are in UTC.  RINEX format uses GPS time, which is currently (Jan 2021)\n"...)
+		out = append(out, "18 seconds ahead of UTC\n\n"...)
+	}
+	for m := range chOut {
+		mm := m
+		if app == "displayrtcm3" {
+			out = append(out, (mm.String() + "\n")...)
+		} else if mm.MessageType >= 0 {
+			out = append(out, mm.RawData...)
+		}
+	}
+	return out
+}
+
 var frameLenRe = regexp.MustCompile(`Frame length (\d+) bytes:`)
 
 func TestVerifApps(t *testing.T) {
@@ -185,9 +217,19 @@ func TestVerifApps(t *testing.T) {
 			if hold <= 0 {
 				hold = refWrites + hold
 			}
-			ev := vEvent{"ev": "c11", "id": c.ID, "nin": len(in), "ref_bytes": len(refBytes), "ref_writes": refWrites, "hold": hold, "ref_return": refRet}
+			want := expectedOutput(os.Getenv("VERIF_APP"), in)
+			ev := vEvent{"ev": "c11", "id": c.ID, "nin": len(in), "ref_bytes": len(refBytes), "ref_writes": refWrites, "hold": hold, "ref_return": refRet,
+				"expected_bytes": len(want), "ref_matches_expected": bytes.Equal(refBytes, want)}
 			if hold < 1 || hold > refWrites {
 				ev["skipped"] = true
+				if !bytes.Equal(refBytes, want) {
+					// nothing to block, but the output is incomplete even long after the return
+					ev["skipped"] = false
+					ev["returned_while_write_blocked"] = false
+					ev["returned"] = refRet == ""
+					ev["complete_at_return"] = false
+					ev["final_equal_ref"] = true
+				}
 				enc.Encode(ev)
 				continue
 			}
